@@ -215,3 +215,105 @@ class Cmap4RoundTrip(Contract):
         return And(*cs)
 
     ensures = [prop("same-map-back", lambda a, old, r: Cmap4RoundTrip._same(a, r))]
+
+
+# -- cmap format 6 (trimmed table) and format 0 (byte encoding) -------------------------------------
+
+def _named_map(S, order, codes, lo_gid=1):
+    gids = [S.int("gid%d" % i, lo_gid, len(order) - 1) for i in range(len(codes))]
+    names = []
+    for g in gids:
+        for k in range(lo_gid, len(order)):
+            if eq(g, k):
+                names.append(order[k])
+                break
+    return gids, names
+
+
+@contract
+class Cmap6Compile(Contract):
+    """cmap format 6 for 1..3 symbolic code points lying within a window of 5 codes: the table
+    covers firstCode .. firstCode+entryCount-1 = [lowest, highest] mapped code, every mapped code
+    reads its glyph id at its index, every unmapped code inside the window reads 0, length field =
+    byte length; decompile gives the map back."""
+    module = "fontTools.ttLib.tables._c_m_a_p"
+    qualname = "cmap_format_6.compile"
+    props = ("C02",)
+    rebind = REBIND4
+    variants = (1, 2, 3)
+    level = "PF"
+    max_paths = 60000
+
+    def args(self, S, variant):
+        t = self.mod.cmap_format_6(6)
+        t.language, t.data = 0, None
+        order = [".notdef", "A", "B", "C", "D"]
+        codes = [S.int("code%d" % i, 0, 0xFFFF) for i in range(variant)]
+        gids, names = _named_map(S, order, codes)
+        t.cmap = dict(zip(codes, names))
+        return dict(self=t, ttFont=_Font(order), _codes=codes, _gids=gids)
+
+    def requires(self, a):
+        c = a._codes
+        return And(*[Not(eq(c[i], c[j])) for i in range(len(c)) for j in range(i + 1, len(c))],
+                   *[And(c[i] - c[j] <= 4, c[j] - c[i] <= 4) for i in range(len(c)) for j in range(i + 1, len(c))])
+
+    def call(self, f, a):
+        data = f(a.self, a.ttFont)
+        back = type(a.self)(6)
+        type(a.self).decompile(back, data, a.ttFont)
+        return data, back
+
+    @staticmethod
+    def _layout(a, r):
+        bs = list(SymBytes.of(r[0]).items)
+        n = (len(bs) - 10) // 2
+        first = be(bs[6:8])
+        lo, hi = a._codes[0], a._codes[0]
+        for c in a._codes[1:]:
+            lo, hi = Ite(c < lo, c, lo), Ite(c > hi, c, hi)
+        cs = [eq(be(bs[0:2]), 6), eq(be(bs[2:4]), len(bs)), eq(be(bs[8:10]), n), eq(first, lo), eq(first + n - 1, hi)]
+        for k in range(n):
+            want = 0
+            for c, g in zip(a._codes, a._gids):
+                want = Ite(eq(c, first + k), g, want)
+            cs.append(eq(be(bs[10 + 2 * k:12 + 2 * k]), want))
+        return And(*cs)
+
+    ensures = [
+        prop("trimmed-table-layout-per-spec", lambda a, old, r: Cmap6Compile._layout(a, r)),
+        prop("decompile-gives-the-map-back", lambda a, old, r: Cmap4RoundTrip._same(a, r[1])),
+    ]
+
+
+@contract
+class Cmap0Compile(Contract):
+    """cmap format 0: 262 bytes, byte k of the glyph array is the glyph id of code k (0 when
+    unmapped), for every glyph id 0..255 at the mapped codes; decompile gives the map back."""
+    module = "fontTools.ttLib.tables._c_m_a_p"
+    qualname = "cmap_format_0.compile"
+    props = ("C02",)
+    rebind = REBIND4
+    variants = ((0,), (65, 66), (1, 128, 255))
+    level = "PF"
+
+    def args(self, S, variant):
+        t = self.mod.cmap_format_0(0)
+        t.language, t.data = 0, None
+        order = [".notdef", "A", "B", "C"]
+        gids, names = _named_map(S, order, variant)
+        t.cmap = dict(zip(variant, names))
+        return dict(self=t, ttFont=_Font(order), _codes=list(variant), _gids=gids)
+
+    def call(self, f, a):
+        data = f(a.self, a.ttFont)
+        back = type(a.self)(0)
+        type(a.self).decompile(back, data, a.ttFont)
+        return data, back
+
+    ensures = [
+        prop("byte-array-per-spec", lambda a, old, r: (lambda bs: And(
+            len(bs) == 262, eq(be(bs[0:2]), 0), eq(be(bs[2:4]), 262),
+            *[eq(bs[6 + k], dict(zip(a._codes, a._gids)).get(k, 0)) for k in range(256)]))(list(SymBytes.of(r[0]).items))),
+        prop("decompile-gives-the-map-back", lambda a, old, r: Cmap4RoundTrip._same(a, r[1])),
+    ]
